@@ -234,8 +234,8 @@ CHECKS["C15"] = dict(
           "oracle: PushHandle log == handles of the value in encounter order, each once; bytes == reference encoding with exactly the returned references; on read GetHandle sees exactly those references in order and "
           "the values round-trip; a corrupted type tag gives UnexpectedHandleType, a tag differing in any single bit (also above the width of a narrow tag type) is rejected without calling GetHandle; a resolver error is returned unchanged. (b) ownership: every history of length <= 4/5 over 3 UniqueHandles with a counting policy "
           "(construct, move-assign incl. self, move-construct, release, close, destroy, assign temporary / empty), random to length 40: each resource closed exactly once when its owner drops it, never after "
-          "release or while still owned; real descriptors through UniqueFileHandle checked with fcntl, incl. descriptor 0 in a forked child whose stdin is closed."),
-    floor={"quick": 100000, "thorough": 1000000}, require_counters=["c15_operations_executed", "c15_handles_pushed", "c15_values_read_back", "c15_corrupted_tags", "c15_resolver_errors_injected", "c15_real_fd_cases", "c15_fd0_child_cases"],
+          "release or while still owned; real descriptors through UniqueFileHandle checked with fcntl, incl. descriptor 0 in a forked child whose stdin is closed, and an interposed close() that reports EINTR after releasing the descriptor (no second close of that number)."),
+    floor={"quick": 100000, "thorough": 1000000}, require_counters=["c15_operations_executed", "c15_handles_pushed", "c15_values_read_back", "c15_corrupted_tags", "c15_resolver_errors_injected", "c15_real_fd_cases", "c15_fd0_child_cases", "c15_interrupted_close_cases"],
     technique="call-log oracle on instrumented reader/writer + counting handle policy over bounded-exhaustive ownership histories, under ASan/UBSan",
     level_text="exploration with an exhaustive core: all ownership histories up to length 4/5 over a 30-operation alphabet; handle-bearing values, returned references and corruptions are sampled and each case decided exactly from the call logs.",
     level_note="handle-capable readers/writers shipped with libnop do not exist; the documented PushHandle/GetHandle interface is implemented by the harness' LogWriter/LogReader",
